@@ -43,7 +43,8 @@ func init() {
 			register(prop, r)
 		}
 	}
-	register("C03", &core.Rule{ID: "RT.6", Title: "presence encoded by nulls: present arm null-free, absent arm null", Mod: core.ModRoot, Floor: 6, Run: rt_6})
+	register("C03", &core.Rule{ID: "RT.6", Title: "presence encoded by nulls: present arm and one-of variants null-free and always-updating, absent arm null", Mod: core.ModRoot, Floor: 9, Run: rt_6})
+	register("C04", &core.Rule{ID: "RT.6", Title: "presence and one-of variants do not depend on whether the optional column already exists (null-free, always-updating writes)", Mod: core.ModRoot, Floor: 9, Run: rt_6})
 	register("C04", &core.Rule{ID: "RT.14", Title: "sorter state is reset before the first Encode of every (re)build", Mod: core.ModRoot, Floor: 9, Run: rt_14})
 	register("C04", &core.Rule{ID: "RT.5", Title: "wrapper discipline: optional columns are requested whenever a non-null would be stored", Mod: core.ModRoot, Floor: 40, Run: rt_5})
 	core.Describe("C04", "Static necessary conditions of 'decoded telemetry is independent of producer options and schema evolution': "+
@@ -163,6 +164,70 @@ func rt_6(c *core.Ctx, p *core.Prog) {
 	}
 	if n == 0 {
 		c.Undecided("sites", "?", "", "no presence-encoded (Has*) write found")
+	}
+	// one-of arms without a type column: `case Int: ivb.Append(v); dvb.AppendNull()` — the decoder infers the
+	// variant from which column is non-null, so the value append must be null-free and always-updating
+	for _, fn := range rootFuncs(c, p) {
+		if !strings.HasSuffix(core.FnPkgPath(fn), "/arrow") {
+			continue
+		}
+		seen := map[string]int{}
+		for _, b := range fn.Blocks {
+			iff := core.IfOf(b)
+			if iff == nil {
+				continue
+			}
+			bo, ok := iff.Cond.(*ssa.BinOp)
+			if !ok || bo.Op != token.EQL {
+				continue
+			}
+			if _, isC := core.ConstInt(bo.Y); !isC {
+				continue
+			}
+			en := core.NamedOf(bo.X.Type())
+			if en == nil || len(enumAllConsts(en)) < 2 {
+				continue
+			}
+			var vals []*ssa.Call
+			var valW []*wrapperSummary
+			nulls, tagged := 0, false
+			core.EachInstr(fn, func(i ssa.Instruction) {
+				cl, ok := i.(*ssa.Call)
+				if !ok || !core.GuardedBy(iff, true, cl) {
+					return
+				}
+				w := ws[cl.Call.StaticCallee()]
+				if w == nil {
+					return
+				}
+				if w.isNull {
+					nulls++
+					return
+				}
+				for _, a := range core.CallArgs(cl) {
+					if _, isK := core.ConstInt(core.StripConv(a)); isK {
+						tagged = true // an explicit type/discriminator column is written in this arm
+					}
+				}
+				vals = append(vals, cl)
+				valW = append(valW, w)
+			})
+			if nulls == 0 || len(vals) == 0 || tagged {
+				continue
+			}
+			for k, cl := range vals {
+				w := valW[k]
+				base := fmt.Sprintf("fn=%s|oneof=%s|%s.%s", core.FuncName(fn), en.Obj().Name(), w.typ, w.method)
+				seen[base]++
+				key := base
+				if seen[base] > 1 {
+					key = fmt.Sprintf("%s#%d", base, seen[base])
+				}
+				c.Check(w.nullFreeAlwaysUpdating(), key, p.Pos(cl.Pos()), core.FuncName(fn),
+					fmt.Sprintf("one-of arm writes its variant with %s.%s (null-free, always requesting the column)", w.typ, w.method),
+					fmt.Sprintf("a one-of arm over %s writes its variant with %s.%s (nullOn=%s, updateOn=%s) while the sibling columns get nulls and no type column is written: the decoder infers the variant from which column is non-null, so a zero value (or an all-zero stream that never requests the column) decodes as \"no value\"", en.Obj().Name(), w.typ, w.method, w.nullOn, w.updateOn))
+			}
+		}
 	}
 }
 
